@@ -9,52 +9,62 @@ import rig, hostile, pyref
 ANY = 0xFFFFFFFF
 
 
+def cred_ids(cred):
+    """(uid, gid) words of a cipher-none, sha256-MAC'd, realm-less v3 credential, read off its INNER layer"""
+    import struct
+    body = hostile.unarmor(cred)
+    off = 5 + 32 + 8 + 1 + body[5 + 32 + 8] + 8
+    return struct.unpack(">II", body[off:off + 8])
+
+
 def _ident_client(args):
-    sock, uid, gid, rounds, seed = args
-    import random
-    rng = random.Random(seed)
+    sock, uid, gid, t_end, min_rounds, seed = args
     bad = []
-    for r in range(rounds):
-        payload = b"id-%d-%d-%d" % (uid, gid, r)
-        e, st = rig.encode(sock, uid=uid, gid=gid, cipher=rng.choice([0, 4]), mac=5, zip_=0, auth_gid=gid, data=payload)
+    r = 0
+    while (r < min_rounds or time.time() < t_end) and len(bad) <= 2:
+        r += 1
+        e, st = rig.encode(sock, uid=uid, gid=gid, cipher=0, mac=5, zip_=0, auth_gid=gid, data=b"id")
         if e is None or e["error_num"] != 0:
             bad.append({"why": "encode failed: %s %s" % (st, e and e["error_str"]), "uid": uid, "gid": gid, "round": r})
             continue
-        # decoding client = same identity: must be authorized by the GID restriction, and the credential must carry the
-        # identity the kernel reported for the ENCODING connection
-        d, st = rig.decode(sock, e["data"], uid=uid, gid=gid)
-        if d is None:
-            bad.append({"why": "no decode reply (%s)" % st, "uid": uid, "gid": gid, "round": r})
-        elif d["error_num"] != 0:
-            bad.append({"why": "client uid=%d gid=%d is refused its own GID-restricted credential: error %d %r (the identity "
-                               "munged attributes to this connection is not the kernel's)" % (uid, gid, d["error_num"], d["error_str"]),
+        # the credential must carry the identity the kernel reported for THIS connection
+        got = cred_ids(e["data"])
+        if got != (uid, gid):
+            bad.append({"why": "credential requested by uid=%d gid=%d records uid=%d gid=%d" % (uid, gid, got[0], got[1]),
                         "uid": uid, "gid": gid, "round": r, "cred_hex": e["data"].hex()})
-        elif (d["cred_uid"], d["cred_gid"]) != (uid, gid):
-            bad.append({"why": "credential requested by uid=%d gid=%d records uid=%d gid=%d" % (uid, gid, d["cred_uid"], d["cred_gid"]),
-                        "uid": uid, "gid": gid, "round": r, "cred_hex": e["data"].hex()})
-        if len(bad) > 2:
-            break
-    return bad
+        if r % 4 == 0:
+            # decoding client = same identity: must be authorized by the GID restriction
+            d, st = rig.decode(sock, e["data"], uid=uid, gid=gid)
+            if d is None:
+                bad.append({"why": "no decode reply (%s)" % st, "uid": uid, "gid": gid, "round": r})
+            elif d["error_num"] != 0:
+                bad.append({"why": "client uid=%d gid=%d is refused its own GID-restricted credential: error %d %r (the identity "
+                                   "munged attributes to this connection is not the kernel's)" % (uid, gid, d["error_num"], d["error_str"]),
+                            "uid": uid, "gid": gid, "round": r, "cred_hex": e["data"].hex()})
+    return bad, r
 
 
-def identity_race(ctx, exe, nclients=8, rounds=150, nthreads=2, label="idrace"):
+def identity_race(ctx, exe, nclients=12, seconds=5.0, nthreads=8, label="idrace"):
     d = rig.Daemon(ctx, exe, tag=label, nthreads=nthreads)
     if not d.start(wait=20):
-        return [{"why": "daemon (%s) does not start" % label}], ""
+        return [{"why": "daemon (%s) does not start" % label}], "", 0
     ids = [(41357, 52468), (0x80000001, 0x80000002), (0xFFFFFFFE, 7), (9, 0xFFFFFFFE), (1, 0x7FFFFFFF), (0x7FFFFFFF, 1),
            (3001, 3001), (65534, 65533)]
     pool = multiprocessing.Pool(nclients)
     problems = []
+    total = 0
     try:
-        res = pool.map(_ident_client, [(d.sock, ids[i % len(ids)][0], ids[i % len(ids)][1], rounds, ctx.seed * 977 + i)
+        t_end = time.time() + seconds
+        res = pool.map(_ident_client, [(d.sock, ids[i % len(ids)][0], ids[i % len(ids)][1], t_end, 100, ctx.seed * 977 + i)
                                        for i in range(nclients)])
-        for b in res:
+        for b, n in res:
             problems += b
+            total += n
     finally:
         pool.terminate()
         pool.join()
     rc, rep = d.stop(timeout=30)
-    return problems, rep
+    return problems, rep, total
 
 
 def _genuine_loop(args):
